@@ -459,7 +459,7 @@ fn all_configs(ctx: &mut Ctx, thorough: bool) -> Vec<(String, usize, usize)> {
         v.push(("rs".into(), k, 0));
         v.push(("ss_new".into(), k, 0));
         v.push(("szs_new".into(), k, 0));
-        for b in [1usize, 2, 8, 64] {
+        for b in [0usize, 1, 2, 8, 64] {
             v.push(("ss".into(), k, b));
             v.push(("szs".into(), k, b));
         }
@@ -747,6 +747,41 @@ pub fn run(ctx: &mut Ctx) {
             exec(ctx, &mut s, &format!("build {} {} {}", sid, p1, p2));
             query_battery(ctx, &mut s, *len <= 70);
             ctx.shape(format!("directed:{}:{}:{}:{}", len, sid, p1, p2));
+        }
+    }
+    // directed: spans above 2^16 (32-bit offsets, spill) for the adaptive family, both polarities
+    {
+        let big: Vec<(usize, Vec<usize>)> = vec![
+            (1 << 17, vec![5, 70_000, 70_001, (1 << 17) - 1]),
+            (200_003, vec![0, 1, 2, 3, 66_000, 132_500, 199_000, 200_002]),
+            (1 << 20, (0..40).map(|i| i * 26_000 + (i % 7)).collect()),
+        ];
+        let acfg: Vec<(&str, usize, usize)> = vec![
+            ("sa", 3, 0), ("sa", 4, 1), ("sa", 6, 2), ("sa", 2, 0), ("sza", 3, 1), ("sa_new", 0, 3),
+            ("sac", 3, 1), ("sac", 5, 2), ("sac", 12, 3), ("szac", 3, 1), ("sza_sa", 3, 1), ("sa_span", 8192, 2),
+        ];
+        for (len, ones) in &big {
+            for polarity in [false, true] {
+                let nw = len.div_ceil(64);
+                let mut ws = vec![if polarity { usize::MAX } else { 0 }; nw];
+                for &p in ones {
+                    if polarity {
+                        ws[p / 64] &= !(1usize << (p % 64));
+                    } else {
+                        ws[p / 64] |= 1usize << (p % 64);
+                    }
+                }
+                for &(sid, p1, p2) in &acfg {
+                    // a dense vector seen through the opposite polarity has a tiny inventory: skip
+                    // the pairs whose selected bit kind is the dense one (their spans are all short)
+                    ctx.case();
+                    let mut s = fresh();
+                    exec(ctx, &mut s, &format!("bits {} {}", len, fmt_list(ws.iter())));
+                    exec(ctx, &mut s, &format!("build {} {} {}", sid, p1, p2));
+                    query_battery(ctx, &mut s, false);
+                    ctx.shape(format!("big:{}:{}:{}:{}:{}", len, polarity, sid, p1, p2));
+                }
+            }
         }
     }
     // seeded part
